@@ -378,4 +378,28 @@ example : (Src.concat (.cons (.cached 0 (.orig [97, 59, 98] [102])) (.cons (.raw
     (fun n => if n = [102] then some [97, 59, 98] else none) := by
   simp [Src.strip, SrcList.stripL, Src.NestWD, SrcList.NestWDs]
 
+/-- **C04 for every `get_map` of every call history** (columns = true): in any history of streaming / `get_map` calls — any length,
+options in any order, cold caches at the start — on a tree with CachedSource nodes (none beneath a ReplaceSource) over raw /
+OriginalSource leaves, ConcatSource and ReplaceSource nodes: whatever map `sm2` a `get_map` of the history returns, every byte it
+resolves is resolved alike (same file name, line, column) by the map `sm1` of the cache-free tree, and is a surviving original byte
+of that file at exactly that line and that column plus `d`, or generated text.  `c10_every_history` ∘ `c04_second_map_bytes`'s
+argument. -/
+theorem c04_every_history_map_bytes (cons : Text → Option Text) (s : Src) (hk : s.NoCR) (hn : s.ids.Nodup) (σ : Store) (hc : Cold σ s.ids)
+    (h : s.ModeHypC) (hs : s.SmallF) (hW : s.strip.NestWD cons) (hz : s.strip.NestSized)
+    (hasc : ∀ n T, cons n = some T → IsAscii T ∧ T.length < USIZE_MAX)
+    (hsmall1 : ∀ m ∈ chunkMs (s.strip.stream ⟨true, true⟩ []).1.evs, m.small)
+    (hsmall2 : ∀ m ∈ chunkMs ((s.warm ⟨true, true⟩).stream ⟨true, true⟩ []).1.evs, m.small)
+    (sm1 : SMap) (h1 : (getMap s.strip ⟨true, true⟩ []).1 = some sm1)
+    (calls : List Opts) (k : Nat) (hcall : calls[k]? = some ⟨true, true⟩) :
+    ∃ r, (runCalls s calls σ).1[k]? = some r ∧ ∀ sm2, mapOfEvs true r.evs = some sm2 →
+      ∀ (i : Nat) (o2 : Orig), (attrFrom (decode sm2.mappings) startPos s.src)[i]? = some (some o2) →
+      ∃ (o1 : Orig) (name T : Text), (attrFrom (decode sm1.mappings) startPos s.src)[i]? = some (some o1)
+        ∧ sm2.sources[o2.src]? = some name ∧ sm1.sources[o1.src]? = some name ∧ o2.line = o1.line ∧ o2.col = o1.col
+        ∧ sm1.sourcesContent[o1.src]? = some T
+        ∧ ((∃ q d, q + d < T.length ∧ adv startPos (T.take q) = ⟨o2.line, o2.col⟩ ∧ s.src[i]? = T[q + d]?
+              ∧ adv startPos (T.take (q + d)) = ⟨o2.line, o2.col + d⟩
+              ∧ ∃ tok k0 l0 c0, TokPos T tok l0 c0 k0 ∧ k0 ≤ q ∧ q + d < k0 + tok.length)
+            ∨ (∃ r ∈ s.strip.allReplsN, ∃ cl ∈ splitLines r.content, ∃ e, e < cl.length ∧ s.src[i]? = cl[e]?)) :=
+  history_map_bytes cons s hk hn σ hc h hs hW hz hasc hsmall1 hsmall2 sm1 h1 calls k hcall
+
 end Rs
